@@ -36,7 +36,7 @@ pub fn dispatch(op: &str, a: &[&str]) -> Option<Ans> {
             let ops: u64 = a[2].parse().unwrap();
             let mem: usize = a[3].parse().unwrap();
             let (pwd, salt) = (unhex(a[4]), unhex(a[5]));
-            let mut out = vec![0u8; outlen];
+            let mut out = vec![0xA5u8; outlen];
             let r = crypto_pwhash(&mut out, &pwd, &salt, ops, mem, alg_of(alg));
             // libsodium: 16-byte salt only; Argon2i needs opslimit >= 3
             let sa = if salt.len() == 16 && outlen >= 16 {
